@@ -7,7 +7,7 @@ from hypothesis import strategies as st
 from hypothesis.stateful import RuleBasedStateMachine, initialize, invariant, rule
 
 from .. import calls, canon, gen, oracle, simfns
-from ..env import FILTERS, JOINS, mk_tok, ssj
+from ..env import FILTER_NAMES, JOIN_NAMES, FreshLibrary, mk_tok, ssj
 from ..runner import Component, Violation
 
 PROPERTY = "C12"
@@ -81,12 +81,19 @@ class World(object):
         tabs = tabs or self.tabs
         l, r = tabs[0], tabs[2]
         pairs = [(a, b) for a in l["id"].tolist() for b in r["id"].tolist()]
+        # non-default index labels (gaps, one repeated label): an in-place index reset of the
+        # caller's candidate set must be visible
+        idx = [7 + 3 * i for i in range(len(pairs))]
+        if len(idx) > 2:
+            idx[-1] = idx[0]
         return pd.DataFrame({"_id": list(range(len(pairs))), "l_id": [p[0] for p in pairs],
-                             "r_id": [p[1] for p in pairs]})
+                             "r_id": [p[1] for p in pairs]}, index=pd.Index(idx))
 
     # ---------------------------------------------------------------- one step
-    def execute(self, step, tabs, cand, tok):
+    def execute(self, step, tabs, cand, tok, api=ssj):
         ctx = self.ctx
+        JOINS = dict((m, getattr(api, n)) for m, n in JOIN_NAMES.items())
+        FILTERS = dict((m, getattr(api, n)) for m, n in FILTER_NAMES.items())
         k = step["kind"]
         L, R = tabs[step.get("l", 0)], tabs[step.get("r", 2)]
         nj = step.get("n_jobs", 1)
@@ -130,16 +137,16 @@ class World(object):
             return out
         if k == "matcher":
             with calls.backend(nj):
-                return ctx.lib(ssj.apply_matcher, cand, "l_id", "r_id", tabs[0], tabs[2], "id",
+                return ctx.lib(api.apply_matcher, cand, "l_id", "r_id", tabs[0], tabs[2], "id",
                                "id", "val", "val", tok, simfns.get(step["fn"]),
                                step["threshold"], step["op"], step["allow_missing"], ["num"],
                                ["val"], "l_", "r_", True, nj, False)
         if k == "profile":
-            return ctx.lib(ssj.profile_table_for_join, L)
+            return ctx.lib(api.profile_table_for_join, L)
         if k == "convert":
             if step["fn"] == "series":
-                return ctx.lib(ssj.series_to_str, L[step["col"]], False)
-            return ctx.lib(ssj.dataframe_column_to_str, L, step["col"], False,
+                return ctx.lib(api.series_to_str, L[step["col"]], False)
+            return ctx.lib(api.dataframe_column_to_str, L, step["col"], False,
                            step["return_col"])
         raise ValueError(k)
 
@@ -188,7 +195,8 @@ class World(object):
                 ftok = mk_tok({"kind": "qgram", "q": 2, "padding": True, "return_set": False})
             else:
                 ftok = None
-            iso = self.execute(step, ftabs, fcand, ftok)
+            with FreshLibrary().active() as fresh:
+                iso = self.execute(step, ftabs, fcand, ftok, api=fresh)
             if iso is not None and self.canon_result(res) != self.canon_result(iso):
                 ctx.violation("kind=result-depends-on-history,call=%s" % self.call_name(step),
                               "%s: result after this history %r differs from the result on "
